@@ -119,4 +119,39 @@ fn handle_notify(res: Result<Option<u64>>, notifiers: &mut Vec<NotifierT>) -> (r
                     invariant verif_res == Err::<Option<u64>, Error>(e),
 //@end
 
+
+// ---- InflightManager::enqueue, the arm for a key that already has a fetch in flight (C06): the later caller is added as
+// a waiter; a fetch closure it brings along is donated to the entry only if none is there yet -- a donation already made
+// is never overwritten or dropped (a lookup-only caller joining after a fetching caller must not wipe the fetch)
+pub struct ErasedT { pub from: Ghost<u8> }
+pub struct TxT { pub ch: Ghost<int> }
+pub struct RxT { pub ch: Ghost<int> }
+pub struct WaiterT { pub ch: Ghost<int> }
+impl RxT { pub fn into_future(self) -> (r: WaiterT) ensures r.ch@ == self.ch@ { WaiterT { ch: Ghost(self.ch@) } } }
+pub struct oneshot { }
+impl oneshot {
+    #[verifier::external_body]
+    pub fn channel() -> (r: (TxT, RxT)) ensures r.0.ch@ == r.1.ch@ { unimplemented!() }
+}
+/// `f.map(erase_required_fetch_builder)` (type erasure of the boxed closure)
+#[verifier::external_body]
+pub fn verif_erase(f: Option<BuilderT>) -> (r: Option<ErasedT>) ensures f.is_some() == r.is_some(), f.is_some() ==> r.unwrap().from@ == f.unwrap().b { unimplemented!() }
+pub struct InflightT { pub id: usize, pub f: Option<ErasedT>, pub notifiers: Vec<TxT> }
+pub struct InflightEntryT { pub hash: u64, pub key: u64, pub inflight: InflightT }
+pub struct OccupiedT { pub e: InflightEntryT }
+impl OccupiedT { pub fn get_mut(&mut self) -> (r: &mut InflightEntryT) ensures *r == old(self).e, *final(r) == final(self).e { &mut self.e } }
+pub enum Enqueue { Lead { id: usize }, Wait(WaiterT) }
+//@region foyer-memory/src/inflight.rs :: impl~InflightManager<E, S, I> where E: Eviction, E::Key: Key/fn enqueue name=enqueue_joins_inflight start=/Entry::Occupied\(mut o\) =>/ arm=1 sub=@f\.map\(erase_required_fetch_builder\)@verif_erase(f)@
+//@head
+fn enqueue_joins_inflight(o: &mut OccupiedT, f: Option<BuilderT>) -> (r: Enqueue)
+    ensures
+        old(o).e.inflight.f is Some ==> final(o).e.inflight.f == old(o).e.inflight.f, // @label a_donated_fetch_closure_is_never_overwritten_by_a_later_caller
+        old(o).e.inflight.f is None && f is Some ==> final(o).e.inflight.f is Some && final(o).e.inflight.f.unwrap().from@ == f.unwrap().b, // @label the_first_offered_fetch_closure_is_donated_to_the_fetch_in_flight
+        old(o).e.inflight.f is None && f is None ==> final(o).e.inflight.f is None,
+        final(o).e.inflight.id == old(o).e.inflight.id && final(o).e.hash == old(o).e.hash && final(o).e.key == old(o).e.key,
+        final(o).e.inflight.notifiers@.len() == old(o).e.inflight.notifiers@.len() + 1
+            && final(o).e.inflight.notifiers@.drop_last() == old(o).e.inflight.notifiers@
+            && (r matches Enqueue::Wait(w) && w.ch@ == final(o).e.inflight.notifiers@.last().ch@), // @label the_later_caller_is_registered_as_a_waiter_and_waits_on_that_registration
+//@end
+
 } // verus!
